@@ -58,4 +58,16 @@ end
 theorem complex_multiplication_cat_eq : complex_multiplication_cat = ["real_part", "imaginary_part"] := by decide
 theorem complex_division_cat_eq : complex_division_cat = ["real_part", "imaginary_part"] := by decide
 
+/-- **every** call of `reduce_operator` / `expand_operator` / `root_sum_of_squares` and every inline re-implementation
+(`complex_multiplication(conjugate(·), ·).sum(d)`, `complex_multiplication(·, ·.unsqueeze(d))`, `(· ** 2).sum(c).sum(d)`)
+found under `direct/` is well-formed: the axis is the class's coil-dimension attribute / a `coil_dim` parameter (or a
+literal equal to the declared value), an inline reduce conjugates the sensitivity map and not the data, an inline
+expand unsqueezes the image and not the sensitivity map, an inline rss sums the complex axis first
+(`Props/C02.wf_site_axis`, `wf_inlineReduce_denotes`, `wf_inlineExpand_denotes` then apply to each of them) -/
+theorem coil_sites_wf : coil_sites.all CoilSite.wf = true := by decide
+
+/-- no method the oracle runs on the real classes has lost its coil-operator site -/
+theorem coil_sites_methods_present :
+    coil_sites = [] ∨ oracleMethods.all (fun f => coil_sites.any (fun s => s.func == f)) = true := by decide
+
 end DirectVerif.Bridge.C02
